@@ -72,6 +72,10 @@ func gRVs(l []RV) string {
 
 // the servers of the harness are linked with the journal controller's configuration, so the write path of
 // partition.Service applies the limit the readers have (w_limit = max_rec)
+func gCfgW(maxChunk, maxRec, wLimit int64) string {
+	return fmt.Sprintf("{| max_chunk := %s; max_rec := %s; w_limit := %s |}", GZ(maxChunk), GZ(maxRec), GZ(wLimit))
+}
+
 func gCfg(maxChunk, maxRec int64) string {
 	return fmt.Sprintf("{| max_chunk := %s; max_rec := %s; w_limit := %s |}", GZ(maxChunk), GZ(maxRec), GZ(maxRec))
 }
